@@ -223,7 +223,7 @@ func (c *converter) WriteFile(path string, content string, append string) error 
 	helper := c.nextHelperVar()
 
 	c.VarAssignment(helper, fmt.Sprintf(`$(if [ "%s" -eq "%s" ]; then echo ">>"; else echo ">"; fi)`, append, transpiler.BoolToString(true)), false)
-	c.addLine(fmt.Sprintf(`eval "echo \"%s\" %s %s"`, content, c.varEvaluationString(helper, false), path))
+	c.addLine(fmt.Sprintf(`eval "echo \"%s\" %s \"%s\""`, content, c.varEvaluationString(helper, false), path))
 	return nil
 }
 
